@@ -340,12 +340,21 @@ func (b *binder) multiFn(ft reflect.Type, tm *typeModel, ki int) func([]reflect.
 // representation gqlgen passes as `_federationRequires`. Either way the result names the key AND
 // the required values, so a value taken from another representation is visible.
 func (b *binder) requiresFn(ft reflect.Type, tm *typeModel, which string) func([]reflect.Value) []reflect.Value {
-	keyName := tm.Keys[0].Fields[0].Path[0]
+	// the entity was resolved through one of its keys: the head field of the first key that is set
+	var keyNames []string
+	for _, k := range tm.Keys {
+		keyNames = append(keyNames, k.Fields[0].Path[0])
+	}
 	return func(in []reflect.Value) []reflect.Value {
 		var key, ext, num, own string
 		if ft.NumIn() >= 3 { // (ctx, obj, federationRequires map[string]any)
 			fr, _ := in[2].Interface().(map[string]any)
-			key, _ = canonLeaf(fr[keyName])
+			for _, kn := range keyNames {
+				if v, ok := fr[kn]; ok && v != nil {
+					key, _ = canonLeaf(v)
+					break
+				}
+			}
 			ext, _ = fr["ext"].(string)
 			if n, ok := fr["num"].(json.Number); ok {
 				num = n.String()
@@ -371,7 +380,13 @@ func (b *binder) requiresFn(ft reflect.Type, tm *typeModel, which string) func([
 			for obj.Kind() == reflect.Ptr {
 				obj = obj.Elem()
 			}
-			key = canonGo(fieldByJSON(obj, keyName))
+			key = nilMark
+			for _, kn := range keyNames {
+				if v := canonGo(fieldByJSON(obj, kn)); v != nilMark {
+					key = v
+					break
+				}
+			}
 			ext = canonGo(fieldByJSON(obj, "ext"))
 			num = canonGo(fieldByJSON(obj, "num"))
 			ov := fieldByJSON(obj, "own")
